@@ -97,6 +97,8 @@ func (t *indexTarget) info() targetInfo {
 	}
 }
 
+func (t *indexTarget) setInfo(info targetInfo) {}
+
 func (t *indexTarget) upToDate() (bool, string, diff.ValueDiff, error) {
 	return true, "", nil, nil
 }
